@@ -38,6 +38,10 @@ REWRITES = [
      "`a == b` on LmotsParameter/LmsParameter -> {lmots,lms}_parameter_eq(&a,&b)"),
     ("R11-slice-eq", re.compile(r"([A-Za-z_][\w\.]*\.as_slice\(\))\s*==\s*([A-Za-z_][\w\.]*)"), r"slice_eq(\1, \2)",
      "`x.as_slice() == y` on byte slices -> slice_eq(x.as_slice(), y) (element-wise equality of core's slice PartialEq)"),
+    ("R4-chain-call", re.compile(r"\b([A-Za-z_][A-Za-z0-9_]*)\.do_hash_chain\("), r"hc_do_hash_chain(&mut \1, ",
+     "hasher.do_hash_chain(..) -> hc_do_hash_chain(&mut hasher, ..): provided trait method under its assumed contract (K-chain)"),
+    ("R4-prepare-call", re.compile(r"\bH::prepare_hash_chain_data\("), r"hc_prepare_hash_chain_data::<H>(",
+     "H::prepare_hash_chain_data(..) -> hc_prepare_hash_chain_data::<H>(..)"),
     ("R9-qualified", re.compile(r"\b(?:crate::)?(?:hss::)?(lm_ots|lms|hss)::verify::(verify|generate_public_key_candidate)\b"), r"\1_\2",
      "same-named functions of different modules get the module as prefix: lms::verify::verify -> lms_verify (definitions renamed with @opt rename)"),
     ("R9-flatten", re.compile(r"\b(?:crate::)?(?:(?:lm_ots|lms|hss|util|constants|hasher|signing|verify|definitions|parameters|parameter|keygen|helper|coef|aux|reference_impl_private_key|seed_derive|super)::)+(?=[A-Za-z_])"), "",
@@ -51,7 +55,7 @@ class Unit:
         self.name = name
         self.props = []
         self.tier = "quick"
-        self.prelude = ""
+        self.parts = []       # ordered (key, text) prelude chunks; keys make @include/@import idempotent
         self.epilogue = ""
         self.items = []       # dicts
         self.uses = []
@@ -59,6 +63,16 @@ class Unit:
         self.imports = []
         self.expect_fail = []  # names of functions expected to fail in addition to canary_*
         self.rlimit = None
+
+    def add_part(self, key, text):
+        for k, _ in self.parts:
+            if k == key:
+                return
+        self.parts.append((key, text))
+
+    @property
+    def prelude(self):
+        return "\n".join(t for _, t in self.parts)
 
 
 def parse_vspec(path):
@@ -73,7 +87,7 @@ def parse_vspec(path):
         nonlocal buf, mode, target
         text = "\n".join(buf)
         if mode == "prelude":
-            u.prelude += text + "\n"
+            u.add_part("own:%s:%d" % (u.name, len(u.parts)), text + "\n")
         elif mode == "epilogue":
             u.epilogue += text + "\n"
         elif mode == "sig" and cur is not None:
@@ -113,7 +127,7 @@ def parse_vspec(path):
                     u.expect_fail.append(arg.strip())
                 elif key == "@include":
                     with open(os.path.join(VDIR, arg.strip())) as inc:
-                        u.prelude += inc.read() + "\n"
+                        u.add_part("inc:" + arg.strip(), inc.read() + "\n")
                 elif key == "@import":
                     # modular use of another unit: its prelude and items are included, its fns as external_body
                     # (contract assumed here, proved in that unit, which runs for the same properties)
@@ -121,8 +135,8 @@ def parse_vspec(path):
                     for x in other.uses:
                         if x not in u.uses:
                             u.uses.append(x)
-                    if other.prelude not in u.prelude:
-                        u.prelude += other.prelude
+                    for k, t in other.parts:
+                        u.add_part(k, t)
                     for it in other.items:
                         if any(j["file"] == it["file"] and j["name"] == it["name"] and j["impl"] == it["impl"] for j in u.items):
                             continue
@@ -132,13 +146,19 @@ def parse_vspec(path):
                         u.items.append(it)
                     u.imports.append(other.name)
                 elif key == "@genconst":
-                    u.prelude += gen_const(arg.strip()) + "\n"
+                    u.add_part("gen:" + arg.strip(), gen_const(arg.strip()) + "\n")
                 elif key == "@prelude":
                     mode = "prelude"
                 elif key == "@epilogue":
                     mode = "epilogue"
                 elif key == "@item":
                     # @item <file> <kind> <name> [in <impl header>] [as <tag>]
+                    mi = re.match(r"(\S+)\s+impl\s+(.*)$", arg)
+                    if mi:
+                        cur = {"file": mi.group(1), "kind": "impl", "name": mi.group(2).strip(), "impl": None,
+                               "sig": "", "before": [], "after": [], "loops": [], "opts": {}}
+                        u.items.append(cur)
+                        continue
                     m = re.match(r"(\S+)\s+(fn|struct|const|enum|type|implconst)\s+(\S+)(?:\s+in\s+(.*))?$", arg)
                     if not m:
                         raise Undecided("bad @item line in %s: %s" % (path, line))
@@ -320,6 +340,10 @@ def cut_item(file_rel, kind, name, impl=None, repo=None):
         body = src[ob:cb + 1]
         return {"sig": sig, "body": body, "start_line": src.count("\n", 0, m.start()) + 1,
                 "body_line": src.count("\n", 0, ob) + 1, "file": file_rel}
+    if kind == "impl":
+        a, b = _find_impl_range(src, clean, name)
+        start = clean.rfind("\n", 0, a) + 1
+        return {"text": src[start:b + 1], "start_line": src.count("\n", 0, start) + 1, "file": file_rel}
     if kind in ("struct", "enum"):
         pat = re.compile(r"^[ \t]*(?:pub(?:\([a-z]+\))?\s+)?%s\s+%s\b" % (kind, re.escape(name)), re.M)
         ms = [m for m in pat.finditer(clean, lo, hi)]
@@ -332,7 +356,11 @@ def cut_item(file_rel, kind, name, impl=None, repo=None):
             end = semi
         else:
             end = _match_brace(clean, ob)
-        return {"text": src[m.start():end + 1], "start_line": src.count("\n", 0, m.start()) + 1, "file": file_rel}
+        # derives of the source item (R0 drops them unless a unit asks to keep one with @opt keep_derive=)
+        pre = src[max(0, m.start() - 400):m.start()]
+        md = re.findall(r"#\[derive\(([^)]*)\)\]", pre)
+        derives = [x.strip() for x in (md[-1].split(",") if md else [])]
+        return {"text": src[m.start():end + 1], "start_line": src.count("\n", 0, m.start()) + 1, "file": file_rel, "derives": derives}
     if kind in ("const", "type", "implconst"):
         kw = "const" if kind != "type" else "type"
         pat = re.compile(r"^[ \t]*(?:pub(?:\([a-z]+\))?\s+)?%s\s+%s\b" % (kw, re.escape(name)), re.M)
@@ -502,6 +530,13 @@ def generate(u, repo=None):
             text = cut["text"]
             # R0: drop derives/attrs is implicit (we cut from the keyword); pub(crate) kept
             text = apply_rewrites(text, counts)
+            if it["opts"].get("keep_derive"):
+                want = [x.strip() for x in it["opts"]["keep_derive"].split(",")]
+                missing = [x for x in want if x not in cut.get("derives", [])]
+                if missing:
+                    raise Undecided("lost anchor: %s no longer derives %s" % (it["name"], missing))
+                text = "#[derive(%s)]\n" % ", ".join(want) + text
+                counts["R0-keep-derive"] = counts.get("R0-keep-derive", 0) + 1
             if it["kind"] == "struct":
                 # R0-vis: all fields pub (visibility only; lets contracts of pub fns mention them)
                 text, n = re.subn(r"^(\s+)([a-z_][a-z0-9_]*\s*:)", r"\1pub \2", text, flags=re.M)
@@ -545,11 +580,20 @@ def fn_ranges(text):
     clean = _strip_tokens(text)
     res = []
     for m in re.finditer(r"^[ \t]*(?:pub(?:\([a-z]+\))?[ \t]+)?(?:(?:open|closed|uninterp|broadcast|const|proof|spec|exec)[ \t]+)*fn[ \t]+([A-Za-z0-9_]+)", clean, re.M):
-        ob = clean.find("{", m.end())
-        semi = clean.find(";", m.end())
-        if ob < 0 or (0 <= semi < ob):
+        ob, depth = -1, 0
+        for j in range(m.end(), len(clean)):
+            ch = clean[j]
+            if ch in "([":
+                depth += 1
+            elif ch in ")]":
+                depth -= 1
+            elif depth == 0 and ch == "{":
+                ob = j
+                break
+            elif depth == 0 and ch == ";":
+                break
+        if ob < 0:
             continue
-        # skip braces that belong to requires/ensures clauses is not needed: clauses have no braces except closures/set literals (rare)
         try:
             cb = _match_brace(clean, ob)
         except Undecided:
